@@ -3622,3 +3622,92 @@ func ruleKindList(prog *Program, rep *Report, inScope func(fd *ast.FuncDecl) boo
 		rep.Errorf("B-kindlist examined %d case lists (floor %d)", n, floor)
 	}
 }
+
+// ---------------------------------------------------------------- M-resultalias
+
+// matchResultAlias: an evaluator collects its results in a slice of its own. Assigning one of the
+// document's containers to that slice (`results = tv`) makes later appends write into the
+// document's array and hands the caller the document's own memory. Reported: an assignment
+// whose left side is the named result (or a local returned by the function) of slice type and
+// whose right side is a type-switch binding or a parameter.
+func matchResultAlias(files []*ast.File, info *types.Info) (sites []synSite, examined int) {
+	for _, f := range files {
+		for _, d := range f.Decls {
+			fd, ok := d.(*ast.FuncDecl)
+			if !ok || fd.Body == nil || fd.Type.Results == nil {
+				continue
+			}
+			results := map[types.Object]bool{}
+			for _, fl := range fd.Type.Results.List {
+				for _, n := range fl.Names {
+					if o := info.Defs[n]; o != nil {
+						if _, isSlice := o.Type().Underlying().(*types.Slice); isSlice {
+							results[o] = true
+						}
+					}
+				}
+			}
+			if len(results) == 0 {
+				continue
+			}
+			inputs := map[types.Object]bool{}
+			if fd.Type.Params != nil {
+				for _, fl := range fd.Type.Params.List {
+					for _, n := range fl.Names {
+						inputs[info.Defs[n]] = true
+					}
+				}
+			}
+			ast.Inspect(fd.Body, func(n ast.Node) bool {
+				if ts, ok := n.(*ast.TypeSwitchStmt); ok {
+					for _, cl := range ts.Body.List {
+						if o := info.Implicits[cl]; o != nil {
+							inputs[o] = true
+						}
+					}
+				}
+				return true
+			})
+			ast.Inspect(fd.Body, func(n ast.Node) bool {
+				as, ok := n.(*ast.AssignStmt)
+				if !ok || len(as.Lhs) != len(as.Rhs) {
+					return true
+				}
+				for i, l := range as.Lhs {
+					lo := useObj(info, l)
+					if lo == nil || !results[lo] {
+						continue
+					}
+					examined++
+					if ro := useObj(info, as.Rhs[i]); ro != nil && inputs[ro] {
+						name := enclosingFuncName(f, as.Pos())
+						sites = append(sites, synSite{pos: as.Pos(), file: f, key: name + ":result-is-input:" + ro.Name(),
+							msg: fmt.Sprintf("%s assigns %s, a container of the data it evaluates, to its result slice %s: the caller receives the document's own array and later appends write into it", name, ro.Name(), lo.Name())})
+					}
+				}
+				return true
+			})
+		}
+	}
+	return
+}
+
+const fixtureResultAlias = `package fixture
+
+func get(data any) (results []any) {
+	switch tv := data.(type) {
+	case []any:
+		if results == nil {
+			results = tv
+		} else {
+			results = append(results, tv...)
+		}
+	}
+	return
+}
+`
+
+func ruleResultAlias(prog *Program, rep *Report, rels ...string) {
+	rep.Rules = append(rep.Rules, "M-resultalias: no function of package jp assigns a parameter or a type-switch binding (a container of the data) to its named result slice: results are collected in memory of their own")
+	runSynRule(prog, rep, "M-resultalias", rels, matchResultAlias, fixtureResultAlias, 1, 20)
+}
